@@ -141,3 +141,58 @@ func Of(path, recv, fn string) (map[string][]Pair, error) {
 	}
 	return nil, fmt.Errorf("%s: function %s.%s not found", path, recv, fn)
 }
+
+// SwitchAssigns returns, for every `switch <x>.<tagField> { … }` in the function (source order), the rows
+// "case-label|destination|source" of the single assignments in its case bodies (labels are the case constants'
+// names, "default" for the default clause; expressions canonicalised like Render).
+func SwitchAssigns(path, recv, fn, tagField string) ([][]string, error) {
+	fset := token.NewFileSet()
+	f, err := parser.ParseFile(fset, path, nil, 0)
+	if err != nil {
+		return nil, err
+	}
+	for _, d := range f.Decls {
+		fd, ok := d.(*ast.FuncDecl)
+		if !ok || fd.Body == nil || fd.Name.Name != fn || recvName(fd) != recv {
+			continue
+		}
+		var out [][]string
+		ast.Inspect(fd.Body, func(n ast.Node) bool {
+			sw, ok := n.(*ast.SwitchStmt)
+			if !ok || sw.Tag == nil {
+				return true
+			}
+			sel, ok := sw.Tag.(*ast.SelectorExpr)
+			if !ok || sel.Sel.Name != tagField {
+				return true
+			}
+			var rows []string
+			for _, cl := range sw.Body.List {
+				cc := cl.(*ast.CaseClause)
+				labels := []string{"default"}
+				if cc.List != nil {
+					labels = nil
+					for _, e := range cc.List {
+						if id, ok := e.(*ast.Ident); ok {
+							labels = append(labels, id.Name)
+						} else {
+							labels = append(labels, Render(e))
+						}
+					}
+				}
+				for _, st := range cc.Body {
+					as, ok := st.(*ast.AssignStmt)
+					if !ok || len(as.Lhs) != 1 || len(as.Rhs) != 1 {
+						rows = append(rows, strings.Join(labels, ",")+"|?|?")
+						continue
+					}
+					rows = append(rows, strings.Join(labels, ",")+"|"+Render(as.Lhs[0])+"|"+Render(as.Rhs[0]))
+				}
+			}
+			out = append(out, rows)
+			return true
+		})
+		return out, nil
+	}
+	return nil, fmt.Errorf("%s: function %s.%s not found", path, recv, fn)
+}
